@@ -122,6 +122,59 @@ def ob_menus(timeout=10):
                 functions=[dict(function=g.ref, sha256_16=g.sha) for g in funcs], transparent=[])
 
 
+def ob_noise_wiring(which, timeout=10):
+    """/decode and /new-errors build their noise model from the request's noise direction and NOISE deformation (not the code's) - request-key data flow read off the AST"""
+    m = Module.load(GUI); g = m.classes['GUI']
+    entry = g.methods[which]
+
+    def model_calls(fn, depth=0):
+        out = [(fn, n) for n in ast.walk(fn.node) if isinstance(n, ast.Call) and ast.unparse(n.func).split('.')[-1] == 'PauliErrorModel']
+        if not out and depth < 2:
+            for n in ast.walk(fn.node):
+                if isinstance(n, ast.Call) and isinstance(n.func, ast.Attribute) and isinstance(n.func.value, ast.Name) and n.func.value.id == 'self' and n.func.attr in g.methods:
+                    out += model_calls(g.methods[n.func.attr], depth + 1)
+        return out
+    calls = model_calls(entry)
+    if len(calls) != 1:
+        raise Unsupported('%s: %d PauliErrorModel constructions found' % (which, len(calls)))
+    fn, call = calls[0]
+
+    def keys_of(expr, seen=()):
+        """request keys an expression is read from, through plain local assignments; None = not resolvable"""
+        if isinstance(expr, ast.Constant):
+            return set()
+        if isinstance(expr, ast.Subscript) and isinstance(expr.slice, ast.Constant) and isinstance(expr.slice.value, str) and isinstance(expr.value, ast.Name):
+            return {expr.slice.value}
+        if isinstance(expr, ast.Call) and isinstance(expr.func, ast.Attribute) and expr.func.attr == 'get' and expr.args and isinstance(expr.args[0], ast.Constant):
+            return {expr.args[0].value}
+        if isinstance(expr, ast.Name) and expr.id not in seen:
+            ks, found = set(), False
+            for n in ast.walk(fn.node):
+                if isinstance(n, ast.Assign) and any(isinstance(t, ast.Name) and t.id == expr.id for t in n.targets):
+                    r = keys_of(n.value, seen + (expr.id,))
+                    if r is None:
+                        return None
+                    ks |= r; found = True
+            return ks if found else None
+        return None
+    arg = call.args[3] if len(call.args) > 3 else next((k.value for k in call.keywords if k.arg == 'deformation_name'), None)
+    if arg is None:
+        return dict(verdict='refuted', model=dict(problem='no deformation passed'), backend='pyvc-structural', seconds=0, kind='plain',
+                    detail='%s constructs the noise model without the requested noise deformation' % which, functions=[dict(function=entry.ref, sha256_16=entry.sha)], transparent=[])
+    ks = keys_of(arg)
+    if ks is None:
+        raise Unsupported('%s: the deformation argument %s is not resolvable to request keys' % (which, ast.unparse(arg)))
+    problems = []
+    if ks != {'noise_deformation_name'}:
+        problems.append("the noise model's deformation is read from request key(s) %s, expected 'noise_deformation_name'" % sorted(ks))
+    dir_ok = any(isinstance(n, ast.Subscript) and ast.unparse(n.value) == 'noise_directions' for n in ast.walk(fn.node))
+    if not dir_ok:
+        raise Unsupported('%s: direction is not looked up in noise_directions' % which)
+    return dict(verdict='refuted' if problems else 'discharged', model=dict(problems=problems, keys=sorted(ks)) if problems else None, backend='pyvc-structural', seconds=0, kind='plain',
+                detail='; '.join(problems) or 'noise model = PauliErrorModel(*noise_directions[error_model], deformation from noise_deformation_name)',
+                functions=[dict(function=f_.ref, sha256_16=f_.sha) for f_ in {entry, fn}], transparent=[], wiring=which)
+
+
 def ob_fresh(timeout=10):
     """every request works on its own code object: _instantiate_code returns a freshly constructed object (not a cached / module-level one),
     so that the in-place deform() of one request cannot leak into another"""
@@ -148,7 +201,9 @@ def ob_fresh(timeout=10):
 
 
 def obligations(tier):
-    obs = [Ob('C20.menus', ob_menus, {}, timeout=30, kind='state'), Ob('C20.fresh_code_per_request', ob_fresh, {}, timeout=30, kind='state', backend='pyvc-effects')]
+    obs = [Ob('C20.menus', ob_menus, {}, timeout=30, kind='state'), Ob('C20.fresh_code_per_request', ob_fresh, {}, timeout=30, kind='state', backend='pyvc-effects'),
+           Ob('C20.noise_wiring[send_correction]', ob_noise_wiring, dict(which='send_correction'), timeout=30, backend='pyvc-structural'),
+           Ob('C20.noise_wiring[send_random_errors]', ob_noise_wiring, dict(which='send_random_errors'), timeout=30, backend='pyvc-structural')]
     for cls in CLASSES:
         obs.append(Ob('C20.table[%s]' % cls, ob_table, dict(cls=cls), timeout=120))
     return obs
@@ -243,8 +298,55 @@ def native_decode(cl, label, cls, size, decoder_label, rnd):
     return None
 
 
+def native_noise_requests(cl, label, cls, size, code_defo, noise_defo, noise_name, rnd):
+    """/new-errors at p = 1 with a pure noise (deterministic) and /decode with BP-OSD, noise deformation independent of the code deformation"""
+    import panqec.gui._gui as G
+    from panqec.error_models import PauliErrorModel
+    import io, contextlib
+    code = cls(*size)
+    if code_defo:
+        code.deform(code_defo)
+    em = PauliErrorModel(*G.noise_directions[noise_name], noise_defo)
+    base = {'Lx': size[0], 'Ly': size[1], 'code_name': label, 'code_deformation_name': code_defo or 'None', 'noise_deformation_name': noise_defo or 'None', 'error_model': noise_name}
+    if len(size) == 3:
+        base['Lz'] = size[2]
+    with contextlib.redirect_stdout(io.StringIO()):
+        resp = cl.post('/new-errors', json=dict(base, p=1.0))
+        if resp.status_code != 200:
+            return '/new-errors returns HTTP %d' % resp.status_code
+        got = json.loads(resp.data)
+        want = np.asarray(em.generate(code, 1.0, rng=np.random.default_rng(0))).tolist()
+        if got != want:
+            return '/new-errors (p=1, %s, noise deformation %s, code deformation %s) returns %s..., the library noise model gives %s...' % (noise_name, noise_defo, code_defo, got[:8], want[:8])
+        e = PauliErrorModel(1 / 3, 1 / 3, 1 / 3).generate(code, 0.1, rng=np.random.default_rng(rnd.randint(0, 10 ** 6)))
+        syn = np.asarray(code.measure_syndrome(e)).tolist()
+        resp = cl.post('/decode', json=dict(base, p=0.1, syndrome=syn, max_bp_iter=10, alpha=0.4, beta=0, decoder='BP-OSD'))
+        if resp.status_code != 200:
+            return '/decode returns HTTP %d' % resp.status_code
+        out = json.loads(resp.data)
+        want = G.decoders['BP-OSD'](code, em, 0.1, max_bp_iter=10, osd_order=0).decode(np.array(syn))
+    if out['x'] != np.asarray(want[:code.n]).tolist() or out['z'] != np.asarray(want[code.n:]).tolist():
+        return '/decode (BP-OSD, %s, noise deformation %s, code deformation %s) differs from the library decoder' % (noise_name, noise_defo, code_defo)
+    return None
+
+
 def replay(r):
     m = r.get('model') or {}
+    if r.get('wiring') or 'noise_wiring' in r.get('name', ''):
+        import panqec.gui._gui as G
+        g, cl = client()
+        rnd = random.Random(0)
+        for label, cls, size in (('Toric 2D', None, (3, 3)), ('Planar 2D', None, (3, 3))):
+            cls = G.codes[label]
+            for cd, nd in ((None, 'XZZX'), ('XZZX', None), ('XZZX', 'XY'), (None, 'XY')):
+                for nn in ('Pure Z', 'Pure X', 'Pure Y'):
+                    try:
+                        w = native_noise_requests(cl, label, cls, size, cd, nd, nn, rnd)
+                    except Exception as e:      # noqa
+                        w = 'raises %s: %s' % (type(e).__name__, e)
+                    if w:
+                        return dict(confirmed=True, input=dict(code=label, size=list(size), code_deformation=cd, noise_deformation=nd, noise=nn), detail=w)
+        return dict(confirmed=False, detail='/decode and /new-errors agree with the library for noise deformations different from the code deformation')
     cls = r.get('cls')
     if not cls:
         return dict(confirmed=None, detail='structural obligation')
@@ -322,9 +424,25 @@ def bounded(tier, seed):
                     ev += 1
                     if w:
                         viol.append(dict(obligation='C20.bounded.decode[%s,%s]' % (name, dl), input=dict(code=name, size=list(size), decoder=dl), detail=w))
+    # /new-errors and /decode with a biased noise whose deformation differs from the code's (every ordered pair of offered deformations incl. none)
+    for label, size in (('Toric 2D', (3, 3)), ('Planar 2D', (3, 2)), ('Toric 3D', (2, 2, 2)), ('Rotated Planar 2D', (3, 3))):
+        cls = G.codes[label]
+        defos = [None] + list(getattr(cls, 'deformation_names', []))
+        for cd in defos:
+            for nd in defos:
+                if cd == nd and cd is not None:
+                    continue
+                for nn in (('Pure Z', 'Pure X') if tier == 'quick' else ('Pure Z', 'Pure X', 'Pure Y', 'Depolarizing')):
+                    try:
+                        w = native_noise_requests(cl, label, cls, size, cd, nd, nn, rnd)
+                    except Exception as e:      # noqa
+                        w = 'raises %s: %s' % (type(e).__name__, e)
+                    ev += 1; nt.add((label, size, cd, nd, nn))
+                    if w:
+                        viol.append(dict(obligation='C20.bounded.noise[%s]' % cls.__name__, input=dict(code=label, size=list(size), code_deformation=cd, noise_deformation=nd, noise=nn), detail=w))
     out, seen = [], set()
     for v in viol:
         if v['obligation'] not in seen:
             seen.add(v['obligation']); out.append(v)
-    return dict(bound='every offered code x <= %d sizes (n <= %d; cubic and (L,L+1) shapes) x every deformation x both pictures; one /decode per offered decoder on the smallest size' % (2 if tier == 'quick' else 8, maxn),
+    return dict(bound='/new-errors (p=1, pure noise) and /decode (BP-OSD) for every ordered pair (code deformation, noise deformation) on 4 codes; every offered code x <= %d sizes (n <= %d; cubic and (L,L+1) shapes) x every deformation x both pictures; one /decode per offered decoder on the smallest size' % (2 if tier == 'quick' else 8, maxn),
                 evaluations=ev, distinct_nontrivial=len(nt), rule='Flask test client; response compared with the library object built the same way', samples=samples, violations=out)
